@@ -164,6 +164,8 @@ struct Ctx {
     edges: Vec<(GExpr, GExpr)>,
     used_caps: Vec<String>,
     in_loop: bool,
+    /// names declared in blocks that are closed by now (candidates for reuse in sibling blocks)
+    closed: Vec<String>,
     stanza_index: usize,
 }
 
@@ -839,7 +841,13 @@ impl<'r> Gen<'r> {
             }
         }
         ctx.edges.truncate(saved_edges);
-        ctx.scopes.pop();
+        if let Some(closed) = ctx.scopes.pop() {
+            for v in closed {
+                if v.ty != Ty::GNode || true {
+                    ctx.closed.push(v.name);
+                }
+            }
+        }
         out
     }
 
@@ -949,6 +957,19 @@ impl<'r> Gen<'r> {
                     if !outer.is_empty() {
                         name = outer[self.rng.below(outer.len())].clone();
                         self.feature("shadowing");
+                    }
+                }
+                // reuse a name from a sibling block that is already closed (block scoping)
+                if !ctx.closed.is_empty() && self.rng.chance(1, 6) {
+                    let cands: Vec<String> = ctx
+                        .closed
+                        .iter()
+                        .filter(|n| ctx.visible(n).is_none() && !self.globals.iter().any(|g| &g.0 == *n))
+                        .cloned()
+                        .collect();
+                    if !cands.is_empty() {
+                        name = cands[self.rng.below(cands.len())].clone();
+                        self.feature("sibling_block_name_reuse");
                     }
                 }
                 let sharing = if ty == Ty::GNode { Sharing::Fresh } else { Sharing::Shared };
@@ -1208,6 +1229,7 @@ impl<'r> Gen<'r> {
             edges: vec![],
             used_caps: vec![],
             in_loop: false,
+            closed: vec![],
             stanza_index: index,
         }
     }
